@@ -60,8 +60,12 @@ def _jaqal_import_module_relative(mod_name, import_path):
 
     spec = _jaqal_find_spec_relative(top_level, import_path)
     module = importlib.util.module_from_spec(spec)
-    sys.modules[mod_name] = module
+    sys.modules[top_level] = module
     spec.loader.exec_module(module)
+
+    if module_heirarchy:
+        # The submodule is found through the freshly loaded top-level package.
+        module = importlib.import_module(mod_name)
 
     return module
 
